@@ -45,7 +45,10 @@ def s_case(draw, tier):
             "L": draw(gens.cmatrix(d, d, 1, 2)), "ldep": draw(st.booleans()), "gdep": draw(st.booleans()),
             "params": draw(gens.rmatrix(2 * N, M, 2, 4)), "rho0": draw(gens.dm_spec(d)),
             "target": draw(gens.cmatrix(d, d, 1, 2)), "callable_target": draw(st.booleans()),
-            "user_derivs": draw(st.booleans()), "envs": envs, "t0": draw(st.sampled_from([0.0, 0.6]))}
+            "user_derivs": draw(st.booleans()), "envs": envs, "t0": draw(st.sampled_from([0.0, 0.6])),
+            # the same ParameterizedSystem object has been used before, with the same parameter table and process tensors of
+            # another time step (a time-step convergence study)
+            "warmup_dt_factor": draw(st.sampled_from([None, None, 2.0, 0.5]))}
 
 
 def _model(case):
@@ -162,6 +165,11 @@ def run_case(case):
         Zf = lambda rho: np.sum(W * rho)
         target = W.copy()
     Z = lambda p: Zf(final(p))
+    wf = case.get("warmup_dt_factor")
+    if wf and all(e["type"] == "anc" for e in case["envs"]):
+        out.label("system-used-before-at-other-dt")
+        pts_w = [ancgen.build_env(e["spec"], d, N, dt=dt * wf)["pt"] for e in case["envs"]]
+        oqupy.state_gradient(psys, rho0, target, pts_w, params.copy(), start_time=t0, progress_type="silent")
     res = oqupy.state_gradient(psys, rho0, target, pts, params.copy(), start_time=t0, progress_type="silent")
     grad = np.asarray(res["gradient"])
     g1 = np.zeros((2 * N, M), dtype=complex)
